@@ -224,7 +224,8 @@ impl Prop for PExec {
             while tree.iter().any(|t| t["parent"].as_u64() == Some(parent as u64) && json_to_string(&t["name"]) == name) {
                 name.push('z');
             }
-            let kind = if rng.chance(1, 3) { "d" } else { "f" };
+            // (C09: also symbolic links that point nowhere - an entry like any other, the command is run on it)
+            let kind = if rng.chance(1, 3) { "d" } else if self.flavour == "C09" && rng.chance(1, 6) { "l" } else { "f" };
             if kind == "d" {
                 dirs.push(i);
             }
